@@ -125,7 +125,11 @@ def run(ctx) -> None:
 
     def atom(pred: T.Callable[[str], bool], what: str) -> BF:
         hits = [a for a in all_atoms if pred(a)]
-        ctx.require(len(hits) == 1, f"specification atom '{what}' matched {hits} among {all_atoms}")
+        ctx.require(len(hits) <= 1, f"specification atom '{what}' matched {hits} among {all_atoms}")
+        if not hits:
+            # no step depends on it: the comparison below then reports the steps whose condition should mention it
+            ctx.observe(f"no VCS step depends on '{what}'")
+            return BF.var(what.split(" ")[0])
         return BF.var(hits[0])
 
     C = atom(lambda a: a == "cfg.commit", "cfg.commit")
@@ -324,8 +328,9 @@ def run(ctx) -> None:
             n_h += 1
             oc = shapes.handler_outcome(cfg, hid)["outcomes"]
             hn = cfg.nodes[hid]
-            if fq == "vcs.VCSAPI.add":
+            if fq == "vcs.VCSAPI.add" and "fallthrough" in oc:
                 # named exception: hg reports 'already tracked!' for files it already knows; anything else is re-raised
+                # (a handler that never completes quietly tolerates nothing and is judged like any other handler below)
                 ok = "raise" in oc and any(isinstance(x, ast.Constant) and x.value == "already tracked!" for x in ast.walk(hn.ast))
                 ctx.check("R3", ok, "VCSAPI.add: handler only tolerates hg's 'already tracked!' and re-raises otherwise",
                           "vcs.VCSAPI.add: a failed `add` is swallowed", f"outcomes {sorted(oc)}", loc=fn.loc(hn.ast))
